@@ -346,12 +346,16 @@ func c06Refusal(c *Ctx, p *Prog, rule string) {
 				if n, ok := ConstInt(PArgs(CallOf(call))[1]); ok && n > 0 {
 					okSize = true
 					c.Infof("replay buffer size at %s: %d bytes", p.Pos(call.Pos()), n)
+				} else if win, err := (&interp{p: p, globals: map[string]iv{}}).evalValue(PArgs(CallOf(call))[1], 0); err == nil && win.kind == 'i' && win.ilo.Sign() > 0 {
+					// a configured size validated/clamped to a positive range
+					okSize = true
+					c.Infof("replay buffer size at %s: %s bytes", p.Pos(call.Pos()), win)
 				} else {
 					okSize = false
 				}
 			}
 		}
-		c.Check(rule, "buffer:constant-positive-size", p, ctor.Pos(), okSize, "the replay buffer is created with a positive constant size", "the replay buffer size is not a positive constant at its construction site")
+		c.Check(rule, "buffer:constant-positive-size", p, ctor.Pos(), okSize, "the replay buffer is created with a positive size (a constant, or a value whose interval has a positive lower bound)", "the replay buffer size is not provably positive at its construction site")
 	}
 }
 
@@ -631,7 +635,7 @@ func c06Retain(c *Ctx, p *Prog, rule string) {
 	}
 	recvP, bufP := ParamAt(rd, 0), ParamAt(rd, 1)
 	var copies []*ssa.Call
-	var src *ssa.Call
+	var srcs []*ssa.Call
 	EachInstr(rd, func(i ssa.Instruction) {
 		call, ok := i.(*ssa.Call)
 		if !ok {
@@ -642,10 +646,13 @@ func c06Retain(c *Ctx, p *Prog, rule string) {
 		}
 		if call.Call.IsInvoke() && call.Call.Method.Name() == "Read" {
 			if _, f, ok := FieldLoad(call.Call.Value); ok && f == "r" {
-				src = call
+				srcs = append(srcs, call)
 			}
 		}
 	})
+	// the main read is the one whose bytes are retained (dominates the retain copy); others are
+	// alternatives on paths of their own (a pass-through fast path) and are judged by the vectors below
+	var src *ssa.Call
 	var replay, retain *ssa.Call
 	isBufSlice := func(v ssa.Value) *ssa.Slice {
 		sl, ok := v.(*ssa.Slice)
@@ -665,36 +672,74 @@ func c06Retain(c *Ctx, p *Prog, rule string) {
 			retain = cp
 		}
 	}
+	for _, sc := range srcs {
+		if retain != nil {
+			if h, _ := (&Walk{Target: func(i ssa.Instruction) bool { return i == ssa.Instruction(retain) }, Local: true}).FromInstr(sc); h != nil {
+				src = sc
+			}
+		}
+	}
 	if src == nil || replay == nil || retain == nil || replay == retain {
 		c.Unk(rule, "read:shape", p, rd.Pos(), "Read is no longer `k := copy(p, buf[readHead:writeHead]); n := source.Read(p[k:]); copy(buf[writeHead:], <fresh bytes>)`: the retained prefix cannot be related to the bytes handed out")
 		return
 	}
 	c.OK(rule, "read:shape", p, rd.Pos(), "replay copy, one source read, retain copy")
-	var n ssa.Value
-	for _, r := range Refs(src) {
-		if ex, ok := r.(*ssa.Extract); ok && ex.Index == 0 {
-			n = ex
+	ns := map[ssa.Value]bool{}
+	for _, sc := range srcs {
+		for _, r := range Refs(sc) {
+			if ex, ok := r.(*ssa.Extract); ok && ex.Index == 0 {
+				ns[ex] = true
+			}
 		}
 	}
-	env := func(k, nn, wh int64) Env {
+	// a state of the reader at entry: wh bytes retained so far, k of them still to be replayed
+	// (readHead = wh-k), room for lb bytes; the call replays k, the source yields nn, ret of
+	// them fit into the buffer
+	envFull := func(k, nn, wh, lb, ret int64) Env {
 		return func(v ssa.Value) (constant.Value, bool) {
 			switch {
 			case v == ssa.Value(replay):
 				return IntC(k), true
-			case n != nil && v == n:
+			case ns[v]:
 				return IntC(nn), true
 			case v == ssa.Value(retain):
-				return IntC(nn), true
+				return IntC(ret), true
 			}
 			if base, f, ok := FieldLoad(v); ok && rootIs(base, recvP) {
 				switch f {
 				case "writeHead":
 					return IntC(wh), true
+				case "readHead":
+					// only the value at entry is known (the method advances it)
+					if ld, isI := v.(ssa.Instruction); isI && ld.Block() == rd.Blocks[0] {
+						early := true
+						for _, j := range rd.Blocks[0].Instrs {
+							if j == ld {
+								break
+							}
+							if st, isS := j.(*ssa.Store); isS {
+								if _, fs, okS := FieldAddrOf(st.Addr); okS && fs == "readHead" {
+									early = false
+								}
+							}
+						}
+						if early {
+							return IntC(wh - k), true
+						}
+					}
+				}
+			}
+			if call, isC := v.(*ssa.Call); isC {
+				if b, isB := call.Call.Value.(*ssa.Builtin); isB && b.Name() == "len" {
+					if base, f, ok := FieldLoad(call.Call.Args[0]); ok && f == "buf" && rootIs(base, recvP) {
+						return IntC(lb), true
+					}
 				}
 			}
 			return nil, false
 		}
 	}
+	env := func(k, nn, wh int64) Env { return envFull(k, nn, wh, wh+nn+7, nn) }
 	bound := func(v ssa.Value, e Env, dflt int64) (int64, bool) {
 		if v == nil {
 			return dflt, true
@@ -737,6 +782,36 @@ func c06Retain(c *Ctx, p *Prog, rule string) {
 		h, _ := (&Walk{Target: func(i ssa.Instruction) bool { return i == tgt }, Edge: EdgeUnder(e)}).FromBlock(entry)
 		return h != nil
 	}
+	// buffer full and replayed completely (the bulk of a large response): whichever source read
+	// the call takes fills p from its start, and its count is what the caller is told
+	{
+		e := envFull(0, 5, 10, 10, 0)
+		bad := ""
+		nreach := 0
+		for _, sc := range srcs {
+			if !reachable(e, sc) {
+				continue
+			}
+			nreach++
+			if lo, hi, ok := window(PArgs(&sc.Call)[0], e); !ok || lo != 0 || hi != -1 {
+				bad = fmt.Sprintf("the source is read into p[%d:%d] rather than p", lo, hi)
+			}
+		}
+		if nreach != 1 {
+			bad = fmt.Sprintf("%d source reads can run", nreach)
+		}
+		(&Walk{Target: func(i ssa.Instruction) bool {
+			if r, isR := i.(*ssa.Return); isR && i.Parent() == rd {
+				cv, ok := Eval(ReturnValue(r, 0), e)
+				x, _ := constant.Int64Val(constant.ToInt(cvOr(cv, ok)))
+				if !ok || x != 5 {
+					bad = "the call does not report the bytes the source produced"
+				}
+			}
+			return false
+		}, Edge: EdgeUnder(e)}).FromBlock(entry)
+		c.Check(rule, "read:pass-through-once-full", p, rd.Pos(), bad == "", "with the buffer full and replayed completely the call is one source read into p, reported as it is", "with the replay buffer full and replayed completely: "+bad)
+	}
 	for _, t := range []struct{ k, n int64 }{{3, 5}, {0, 5}} {
 		e := env(t.k, t.n, 10)
 		if !reachable(e, src) {
@@ -752,7 +827,14 @@ func c06Retain(c *Ctx, p *Prog, rule string) {
 				}
 				return false
 			}, Edge: EdgeUnder(e)}).FromBlock(entry)
-			c.Check(rule, fmt.Sprintf("read:source-fills-after-replayed[k=%d]", t.k), p, src.Pos(), okRet, "with replayed bytes in hand the call returns exactly them (k, nil) without reading the source", fmt.Sprintf("with %d bytes replayed the source is not read but the call does not return (%d, nil)", t.k, t.k))
+			why := fmt.Sprintf("with %d bytes replayed the source is not read but the call does not return (%d, nil)", t.k, t.k)
+			for _, sc := range srcs {
+				if sc != src && reachable(e, sc) {
+					why = fmt.Sprintf("with %d bytes replayed and room left in the buffer the call reads the source at %s, on a path that does not retain what it read: a retried upload replays a prefix with a hole", t.k, p.Pos(sc.Pos()))
+					okRet = false
+				}
+			}
+			c.Check(rule, fmt.Sprintf("read:source-fills-after-replayed[k=%d]", t.k), p, src.Pos(), okRet, "with replayed bytes in hand the call returns exactly them (k, nil) without reading the source", why)
 			c.OK(rule, fmt.Sprintf("read:retains-the-fresh-bytes[k=%d]", t.k), p, retain.Pos(), "no fresh bytes in a replay-only call: nothing to retain")
 			continue
 		}
